@@ -74,8 +74,16 @@ def main():
         print(json.dumps(run_case(case, base)))
         return
     cases = json.load(open(sys.argv[1]))
+    from concurrent.futures import ThreadPoolExecutor
+
+    with ThreadPoolExecutor(max_workers=12) as ex:
+        outs = list(ex.map(one_case, cases))
+    json.dump(outs, open(sys.argv[2], "w"))
+
+
+def one_case(case):
     outs = []
-    for case in cases:
+    for case in [case]:
         base = tempfile.mkdtemp(prefix="vreg")
         try:
             write_packages(base, case["packages"])
@@ -93,7 +101,7 @@ def main():
             outs.append({"harness_error": traceback.format_exc()[-800:]})
         finally:
             shutil.rmtree(base, ignore_errors=True)
-    json.dump(outs, open(sys.argv[2], "w"))
+    return outs[0]
 
 
 if __name__ == "__main__":
